@@ -906,7 +906,7 @@ func (g *c12Gen) filter() c12RFilter {
 	}
 	if r.Chance(35) {
 		ts := []c12RTag{}
-		names := []string{"e", "p", "t", "d", "Z", "r"}
+		names := []string{"e", "p", "t", "d", "Z", "r", "a"}
 		n := 1 + r.Intn(2)
 		for j := 0; j < n; j++ {
 			k := r.Intn(len(names))
@@ -918,6 +918,13 @@ func (g *c12Gen) filter() c12RFilter {
 				vs = *hexes("id")
 			case "p":
 				vs = *hexes("pk")
+			case "a":
+				// addresses kind:pubkey:d with kinds over the whole range 0..65535 (both halves of 16 bits)
+				vs = []string{}
+				for m := r.Intn(2); m >= 0; m-- {
+					k := common.Pick(r, []int64{0, 3, 10002, 30023, 31990, 32767, 32768, 34550, 39999, 65535})
+					vs = append(vs, strconv.FormatInt(k, 10)+":"+common.Pick(r, c12Keys).pk+":"+g.word())
+				}
 			default:
 				vs = []string{}
 				for m := r.Intn(3); m >= 0; m-- {
